@@ -775,7 +775,12 @@ func vNilPtrArm(k int) interface{} {
 // vArg_any: what Interface/Any/Type/Array.Interface distinguish (a LogObjectMarshaler or not;
 // everything else goes to InterfaceMarshalFunc, here the stub vMarshal).
 func vArg_any() interface{} {
-	switch zzverif.Choice(6) {
+	switch zzverif.Choice(7) {
+	case 5:
+		// a type whose NAME contains quotes and backslashes (anonymous struct with a field tag)
+		return struct {
+			ID int `json:"id"`
+		}{1}
 	case 0:
 		return nil
 	case 1:
@@ -1043,4 +1048,35 @@ func VH_C01_derived_lines() {
 		zzverif.Assert(ln != nil && vEventOK(ln), "derived loggers: every logger of a derivation tree writes one well-formed event per call")
 	}
 	zzverif.Reach("C01/derived-lines")
+}
+
+
+// The marshal func in force WHEN THE VALUE IS LOGGED renders values of unknown type (it is a
+// global the application may set at any time after package initialisation), once per value.
+func VH_C01_marshal_func() {
+	calls := 0
+	InterfaceMarshalFunc = func(v interface{}) ([]byte, error) {
+		calls++
+		return []byte(`"CUSTOM"`), nil
+	}
+	v := struct{ A int }{1}
+	e, st := vOpenEvent()
+	var res *Event
+	switch zzverif.Choice(4) {
+	case 0:
+		res = e.Interface("k", v)
+	case 1:
+		res = e.Any("k", v)
+	case 2:
+		res = e.Fields([]interface{}{"k", v})
+	case 3:
+		res = e.Array("k", Arr().Interface(v))
+	}
+	vCheckEvent("marshal_func", e, st, res)
+	zzverif.Assert(calls == 1, "the InterfaceMarshalFunc set by the application is the one used, once per value")
+	c, cst := vOpenContext()
+	cres := c.Interface("k", v)
+	vCheckContext("marshal_func/context", c, cst, cres)
+	zzverif.Assert(calls == 2, "Context.Interface uses the InterfaceMarshalFunc set by the application")
+	zzverif.Reach("C01/marshal-func")
 }
